@@ -2,6 +2,8 @@
 import random
 from typing import Any, Dict, Iterator, List, Optional
 
+import core
+
 from core import Case, Prop, SelfCheckFailure, exc_category, DOCUMENTED, pack_stable, ISOLATION
 from gen import hx, unhx, pool, rbytes
 
@@ -122,12 +124,14 @@ def op_fd_unpack(a):
     buf = raw + sfx
     if a.get("via", 0) == 1:
         buf = bytearray(buf)
+    accepted = bytes(buf)
     try:
         p = FileDataPdu.unpack(buf)
     except Exception as e:  # noqa
         if sfx and exc_category(e) in DOCUMENTED:
             # refusing a buffer with trailing octets is one of the two allowed behaviours (C09)
             p = FileDataPdu.unpack(raw)
+            accepted = raw
         else:
             raise
     f = _pdu_fields(p)
@@ -140,6 +144,11 @@ def op_fd_unpack(a):
     rp = bytes(p.pack())
     if rp != bytes(buf[: f["packet_len"]]):
         raise SelfCheckFailure("pack(unpack(b)) != b[:packet_len]")
+    # decoded out of a receive buffer (a bytearray) that the receiver reuses afterwards: the file data and the segment
+    # metadata of the decoded PDU are still the ones that were on the wire (a buffer with trailing octets that is
+    # refused is outside the probe: the PDU alone is looked at in that case)
+    core.check_detached(FileDataPdu.unpack, accepted, _digest, "FileDataPdu.unpack", expect=_digest(p),
+                        memview=core.accepts_memoryview(FileDataPdu.unpack))
     f["raw"] = hx(rp)
     return f
 
